@@ -49,7 +49,7 @@ SpecBack(e, dec) ==
     [] OTHER                                         -> DecToSigned(dec, e.d)
 BackConforms(e) ==
   LET b == SpecBack(e, Dec(e.dneg, e.mi, e.s)) IN
-  /\ e.bst = (IF b.ok THEN "ok" ELSE "err")
+  /\ e.bst = (IF b.ok THEN "ok" ELSE IF b.panic THEN "panic" ELSE "err")
   /\ b.ok => b.v = (IF e.bneg THEN -e.bi ELSE e.bi)
 Conforms(e) ==
   e.small =>
